@@ -19,12 +19,12 @@ func c14Specs(tier string) []*Spec {
 	flush := Cfg{Fast: true, Flush: 150}
 	cache := Cfg{Fast: true, Cache: 1000}
 	if tier == "quick" {
-		add("default/d6", defaultCfg, 6, 3)
-		add("iv1/d5", iv(1), 5, 3)
-		add("iv7/d5", iv(7), 5, 3)
-		add("nofast/d5", noFast, 5, 3)
-		add("flush150/d5", flush, 5, 3)
-		add("cache1000/d5", cache, 5, 3)
+		add("default/d7", defaultCfg, 7, 3)
+		add("iv1/d6", iv(1), 6, 3)
+		add("iv7/d6", iv(7), 6, 3)
+		add("nofast/d6", noFast, 6, 3)
+		add("flush150/d6", flush, 6, 3)
+		add("cache1000/d6", cache, 6, 3)
 		return specs
 	}
 	add("default/d8", defaultCfg, 8, 3)
